@@ -236,7 +236,7 @@ def rule_per_antenna(repo: Repo, rep: Report) -> int:
             n += 1
     sd = [s for s in stmts_of(fwd.body) if isinstance(s, ast.Assign) and unparse(s.targets[0]) == "spatial_dims"]
     for s in sd:
-        st, d, _ = classify(s.value, ["tuple(range(2, len(x.shape)))", "tuple(range(2, x.dim()))", "tuple(range(2, x.ndim))"])
+        st, d, _ = classify(Inliner(fwd).inline(s.value), ["tuple(range(2, len(x.shape)))", "tuple(range(2, x.dim()))", "tuple(range(2, x.ndim))"])
         rep.add("POWER-LAW", fwd, f"reduced axes: spatial_dims = {unparse(s.value)}", st, d or "all axes but batch (0) and antenna (1)", node=s)
         n += 1
     rep.floor("per-antenna reduced-axes definition", len(sd), 1)
